@@ -9,6 +9,7 @@ import time
 import traceback
 import warnings
 from fractions import Fraction
+REPO = os.environ.get("VERIF_REPO", "/repo").rstrip("/")
 
 warnings.filterwarnings("ignore")
 
@@ -182,8 +183,8 @@ def run_job(spec):
         def prof(frame, event, arg):
             if event == "call":
                 fn = frame.f_code.co_filename
-                if fn.startswith("/repo/bionumpy") or "/npstructures/" in fn:
-                    funcs.add((fn.replace("/venv/lib/python3.12/site-packages/", ""), frame.f_code.co_firstlineno,
+                if fn.startswith(REPO + "/bionumpy") or "/npstructures/" in fn:
+                    funcs.add((fn.replace("/venv/lib/python3.12/site-packages/", "").replace(REPO, "/repo"), frame.f_code.co_firstlineno,
                                frame.f_code.co_name))
 
         first = [True]
